@@ -75,6 +75,23 @@ func TestVerifC40View(t *testing.T) {
 			}
 			r.Distinct(fmt.Sprintf("add-len%d:%v", len(k), got))
 			return strconv.FormatBool(got), true
+		case len(f) == 3 && f[0] == "simhas":
+			k, e1 := verifh.UnHex(f[1])
+			p, e2 := strconv.ParseUint(f[2], 10, 8)
+			if e1 != nil || e2 != nil {
+				return "bad-op", true
+			}
+			sk := state.SimulatedKeys{}
+			got := sk.Has(k, state.Permissions(p))
+			entry := "none"
+			if q, ok := sk[string(k)]; ok {
+				entry = strconv.Itoa(int(q))
+			}
+			if len(k) < 2 && got {
+				// known finding: a simulated scope grants a key that can never be declared
+				e.viol("short-key-use-not-rejected", "SimulatedKeys.Has(%x, %d) = true (Keys.Add refused the key, its result is ignored)", k, p)
+			}
+			return fmt.Sprintf("%v %s", got, entry), true
 		case len(f) == 2 && f[0] == "kget":
 			k, e1 := verifh.UnHex(f[1])
 			if e1 != nil {
@@ -86,6 +103,15 @@ func TestVerifC40View(t *testing.T) {
 			return "none", true
 		}
 		return "", false
+	}
+	// known finding: under CompletePermissions, GetValue and Remove do not reject a key shorter
+	// than two bytes (Insert does); any *other* acceptance of a short key has its own class
+	e.after = func(f []string, out string) {
+		if len(f) == 2 && (f[0] == "get" || f[0] == "remove") && e.keysScope == nil {
+			if k, err := verifh.UnHex(f[1]); err == nil && len(k) < 2 && out != "perm" && out != "badvalue" && out != "bad-op" {
+				e.viol("short-key-use-not-rejected", "%s of the %d-byte key %x under CompletePermissions is not rejected: %s", f[0], len(k), k, out)
+			}
+		}
 	}
 	e.runLines(lines, func() {
 		if e.seqMut > 0 {
@@ -110,6 +136,14 @@ func c40ViewGenerate(r *verifh.Run, chunk int) []string {
 		lines = append(lines, "opindex", "commit")
 	}
 	z := func(n int) string { return fmt.Sprintf("z%d", n) }
+	// short keys at the sites that do not reject them (known finding short-key-use-not-rejected)
+	for _, k := range []string{"07", "-", "ff"} {
+		lines = append(lines, fmt.Sprintf("reset U=%s P=%s:09 C= F= O=0", k, k), "view *",
+			"get "+k, "insert "+k+" 01", "remove "+k, "get "+k, "opindex", "commit", "view *", "get "+k,
+			fmt.Sprintf("reset U=%s P=%s:09 C= F= O=0", k, k), "view "+k+":7", "get "+k, "remove "+k, "insert "+k+" -", "commit")
+		lines = append(lines, "simhas "+k+" 7", "simhas "+k+" 1")
+	}
+	lines = append(lines, "simhas 610001 3", "simhas 0000 5")
 	// state.Keys.Add with key lengths 0..6
 	for l := 0; l <= 6; l++ {
 		for rep := 0; rep < r.N(40, 400); rep++ {
